@@ -11,7 +11,7 @@ class Prop:
     thorough_runs = 2000000
     rule = ("seeded operator pipelines (depth 1-4 over 1-4 cold/hot/sync sources, %d catalogue rows) with non-conforming sources "
             "(events after the terminal, double terminals), rogue sources that ignore their disposal, sources that call their observer from inside the disposal of their subscription, InjectedFault at the k-th call of "
-            "operator callbacks and of the subscriber's own callbacks, and re-entrant dispose; every recorder (root, windows, groups) "
+            "operator callbacks and of the subscriber's own callbacks, a subscriber whose terminal handler pushes one more element into a hot source of the pipeline, and re-entrant dispose; every recorder (root, windows, groups) "
             "must see on_next* (on_error|on_completed)? and nothing afterwards. Distinct = (operators, root notification kinds, faults fired); "
             "non-trivial = at least one notification and at least one of: fault fired, non-conforming or rogue source.") % len(catalog.ROWS)
     assumptions = ["single-threaded virtual time; concurrent emitters are C43's", "an exception raised by the subscriber's own callback may travel back to the emitter (caught and logged by the harness)"]
@@ -26,6 +26,9 @@ class Prop:
                 s["kind"] = "syncthen"  # first event synchronously inside subscribe(), uncaught; the rest later
             if rng.random() < 0.12:
                 s["on_dispose"] = rng.choice(["N", "C", "E"])  # calls its observer from inside the disposal of its subscription
+        hots = [s["id"] for s in sc["sources"] if s["kind"] == "hot" and not s.get("rogue")]
+        if hots and rng.random() < 0.12:
+            sc["feed_on_terminal"] = rng.choice(hots)  # the subscriber's own terminal handler pushes one more element into a hot source of the pipeline
         sites = catalog.sites_of(sc["program"])
         faults = []
         if sites and rng.random() < 0.5:
@@ -53,10 +56,11 @@ class Prop:
         out.sim_time = sc["horizon"]
         weird = bool(w.fired) or any(s.get("rogue") for s in sc["sources"]) or any(_nonconforming(s) for s in sc["sources"])
         out.nontrivial = bool(rec.events) and weird
-        out.faults["callback_raise"] += len([f for f in w.fired if not f[1].startswith("subscriber:")])
-        out.faults["subscriber_raise"] += len([f for f in w.fired if f[1].startswith("subscriber:")])
+        out.faults["callback_raise"] += len([f for f in w.fired if not f[1].startswith(("subscriber:", "source:"))])
+        out.faults["subscriber_raise"] += len([f for f in w.fired if f[1].startswith("subscriber:") and "feeds_back" not in f[1]])
         out.faults["rogue_source"] += sum(1 for s in sc["sources"] if s.get("rogue"))
         out.faults["emit_on_dispose"] += len([f for f in w.fired if f[1].endswith(":emits_on_dispose")])
+        out.faults["feed_from_terminal_handler"] += len([f for f in w.fired if f[1].endswith(":feeds_back_from_terminal_handler")])
         out.faults["nonconforming_source"] += sum(1 for s in sc["sources"] if _nonconforming(s))
         if rec.disp_ret_seq is not None:
             out.faults["dispose"] += 1
